@@ -70,3 +70,33 @@ structure LtField where
   deriving DecidableEq, Repr
 
 end TrackVerif.Gen
+
+namespace TrackVerif.Gen
+
+/-- a configuration value as viper hands it to the command (keys lower-cased) -/
+inductive CliVal
+  | str (s : String)
+  | bool (b : Bool)
+  | num (text : String)             -- integers and floats, in their shortest decimal spelling
+  | list (vs : List CliVal)
+  | table (kvs : List (String × CliVal))
+  deriving Repr, Inhabited
+
+/-- one `fs.XxxVar(&c.Path, "name", default, …)` -/
+structure CliFlag where
+  name : String
+  path : List String          -- destination field path inside the decoded struct
+  kind : String               -- string | bool | float | int | strings | date
+  dflt : String
+  deriving DecidableEq, Repr
+
+/-- one command: its config section, the struct the section is decoded onto, its flags and the
+    option fields of that struct (path, Go type) -/
+structure CliCmd where
+  sect : String
+  target : String
+  flags : List CliFlag
+  fields : List (List String × String)
+  deriving DecidableEq, Repr
+
+end TrackVerif.Gen
